@@ -216,7 +216,11 @@ def representable(fmt, names, seqs):
     if any(n != n.strip() or not n for n in names) or len(set(names)) != len(names):
         return False
     if fmt in ("phylip", "paml"):
-        if any(any(c.isspace() for c in n) for n in names):
+        # PHYLIP separates the name field from the sequence by position/whitespace; PAML writes each name on a line of
+        # its own, so a name with internal blanks is representable there (and round-trips on the reference tree)
+        if fmt == "phylip" and any(any(c.isspace() for c in n) for n in names):
+            return False
+        if fmt == "paml" and any(any(c.isspace() and c != " " for c in n) for n in names):
             return False
         if len({len(s) for s in seqs}) != 1:
             return False
